@@ -677,7 +677,12 @@ type c18rec struct {
 // block: untouched / put / delete / two writes / read-only), optionally
 // pending writes on top; every snapshot must answer what the live reader
 // answered when that block was the tip.
-func verifC18(N int) {
+func verifC18(N int) { verifC18With(N, false) }
+
+// verifC18With, reorg: the history starts on a block x1 that writes the key and is later abandoned
+// (the main chain grows from genesis beside it and takes over with its second block); a main-chain
+// block may include x1's writer again.  Snapshots are taken at the blocks of the final main chain.
+func verifC18With(N int, reorg bool) {
 	e := vkit.NewEnv("c18", vkit.Genesis("0", "9", "5"), nil)
 	s := e.NewState("live")
 	vrt.Assert(s.Play(e.Root.Blockid) == nil, "genesis-plays")
@@ -711,10 +716,38 @@ func verifC18(N int) {
 	}
 	blocks = append(blocks, tip)
 	live = append(live, readLive())
+	var wx *pb.Transaction
+	if reorg {
+		wx = vkit.Tx("wx", nil, nil)
+		vkit.WithKey(wx, "bk", "k1", nil, 0, []byte("abandoned"))
+		x1 := vkit.Block(tip.Blockid, 90, []*pb.Transaction{vkit.Coinbase("cbx", "M", []byte{7}), wx})
+		vrt.Assert(e.L.ConfirmBlock(x1, false).Succ, "block-confirmed-by-ledger")
+		vrt.Assert(s.Play(x1.Blockid) == nil, "block-plays")
+		// two award-only blocks beside it take the main chain over (Walk verifies what it
+		// applies; the harness's key writers are unsigned, so they come after the switch)
+		for j := 1; j <= 2; j++ {
+			tag := string([]byte{byte('0' + j)})
+			b := vkit.Block(tip.Blockid, int32(90+j), []*pb.Transaction{vkit.Coinbase("cby"+tag, "M", []byte{7})})
+			vrt.Assert(e.L.ConfirmBlock(b, false).Succ, "block-confirmed-by-ledger")
+			vrt.Assert(s.Walk(b.Blockid, false) == nil, "block-walked-to")
+			tip = b
+			blocks = append(blocks, b)
+			live = append(live, readLive())
+		}
+	}
 	for i := 1; i <= N; i++ {
 		tag := string([]byte{byte('0' + i)})
 		txs := []*pb.Transaction{vkit.Coinbase("cb"+tag, "M", []byte{7})}
-		switch vrt.Choice("action", 5) {
+		nAct := 5
+		if reorg && wx != nil && curTx == nil {
+			nAct = 6
+		}
+		switch vrt.Choice("action", nAct) {
+		case 5: // the abandoned block's writer, included again on the main chain
+			txs = append(txs, &pb.Transaction{Txid: wx.Txid, Version: wx.Version, TxInputsExt: wx.TxInputsExt, TxOutputsExt: wx.TxOutputsExt})
+			curTx, curOff = wx.Txid, 0
+			wx = nil
+			vrt.Cover("abandoned-writer-included-again", true)
 		case 0: // untouched
 		case 1: // put
 			v := vrt.Bytes("v"+tag, 1)
@@ -767,6 +800,7 @@ func verifC18(N int) {
 
 func VerifC18Quick()    { verifC18(3) }
 func VerifC18Thorough() { verifC18(4) }
+func VerifC18Reorg()    { verifC18With(2, true) }
 
 // ---------------------------------------------------------------- C05 / C06
 
